@@ -57,7 +57,21 @@ pub fn unit_f64cmp(o: &mut Out, tier: &str, r: &mut Rng) {
 }
 
 pub fn gen_number_string(r: &mut Rng) -> String {
-    match r.below(12) {
+    match r.below(14) {
+        12 | 13 => {
+            // malformed text with multi-byte characters at every byte offset: pasted degree-minute-second
+            // coordinates, other scripts, emoji; lengths 0..48 bytes
+            if r.chance(0.3) {
+                return r.pick(&["48°51′24.46″N", "21°25′21.05″N 39°49′34.2″E", "٤٨٫٨٥٦٦ شمال", "北緯35.6895度 東経139.6917度", "−33.8688° (Sydney) 🙂", "12,345678901234567é", "1234567890123456°", "123456789012345°0"]).to_string();
+            }
+            let pieces = ["°", "′", "″", "N", "E", " ", "4", "8", ".", "٣", "度", "é", "🙂", "-", "e", "inf", "nan", "−", "1", "0"];
+            let n = r.below(24) as usize;
+            let mut s = String::new();
+            for _ in 0..n {
+                s.push_str(r.pick(&pieces));
+            }
+            s
+        }
         0 => format!("{:?}", f64::from_bits(r.next())),
         1 => format!("{}", r.range(-200., 200.)),
         2 => format!("{:e}", r.range(-1e5, 1e5)),
